@@ -84,6 +84,13 @@ def make_grammars(seed, tier):
     out.append({"name": "many-subwords/%d" % n, "text": many})
     # non-ASCII descriptions (the only non-ASCII text the grammar syntax admits)
     out.append({"name": "unicode-descriptions", "text": "uni (gross \"gro\xc3\x9f\" | nihon \"\xe6\x97\xa5\xe6\x9c\xac\xe8\xaa\x9e\" | --k=(a \"\xc3\xa9\" | b)) <PATH>;\n"})
+    # within-word expressions made of the same pieces in opposite orders (`<A>,<B>` / `<B>,<A>`), several pairs: automata that are
+    # equal as SETS of inputs but not as automata.  Interning them through a randomly seeded hash container is safe only if
+    # equality is exact; the rate at which a sloppy equality bites is ~1 % of processes, hence many randomness-only vectors.
+    out.append({"name": "mirrored-words/a", "rand_only": 150 if tier == "quick" else 1500, "text":
+                "mw get {{{ echo a1 }}},{{{ echo b1 }}} | put {{{ echo b1 }}},{{{ echo a1 }}} | x {{{ echo a1 }}}:{{{ echo c1 }}} | y {{{ echo c1 }}}:{{{ echo a1 }}};\n"})
+    out.append({"name": "mirrored-words/b", "rand_only": 150 if tier == "quick" else 1500, "text":
+                "mv (remove <F>,<H> | init <H>,<F> | cp <F>=<H> | mv <H>=<F> | ln <F>:<F>) [--v=(a | b) | --w=(b | a)]...;\n<F> = {{{ echo f }}};\n<H> = {{{ echo h }}};\n<H@fish> = {{{ echo hf }}};\n"})
     for i, g in enumerate(out):
         g["id"] = i
     return out
@@ -206,6 +213,9 @@ def run_directed(args):
     for k in range(nseeds):
         vr = rng.sub("vec/%d" % k)
         vec = seam_vector(vr)
+        if g.get("rand_only"):
+            vec = seam_vector(None, canonical=True)
+            vec["rand"] = vr.u64() | 1
         # discovery feeds the directed pass: every environment name the binary was seen to look up is given a value
         for name in looked_up:
             if vr.chance(2, 3):
@@ -457,6 +467,8 @@ def main(seed, tier):
         shells = gram.SHELLS if (not quick or g["name"].startswith("example")) else rng.sample(gram.SHELLS, 2)
         for sh in shells:
             n = nseeds if not g["name"].endswith("mygit.usage") else max(2, nseeds // 3)
+            if g.get("rand_only"):
+                n = g["rand_only"]
             jobs.append((g, sh, seed, n))
     runs = 0
     violations = list(det_violations)
